@@ -373,7 +373,7 @@ def api_case(draw, max_tokens):
     arity = 5 if (system == "inorder" or via_binarize) else 2
     disc = 0.8 if system == "gap" else 0.0
     tree = draw(S.tree_model(max_tokens=max_tokens, disc=disc, max_arity=arity, max_root=(None if arity > 2 else 2), words=WORDS,
-                             labels=st.sampled_from(["S", "NP", "VP", "X", "VPinf", "Srel", "Größe"]), pos=st.sampled_from(["NN", "VB", "ART"])))
+                             labels=st.sampled_from(["S", "NP", "VP", "X", "VPinf", "Srel", "Größe", "@S"]), pos=st.sampled_from(["NN", "VB", "ART", "@"])))
     for node in M.constituents(tree["root"]):
         pick = draw(st.integers(0, len(node["c"]) - 1))
         for i, child in enumerate(node["c"]):
@@ -441,6 +441,16 @@ def gen_cli_inproc(ctx):
         check_cli(case)
         unary = any(len(n["c"]) == 1 for t in case["trees"] for n in M.constituents(t["root"]))
         ctx.count(key=case, nontrivial=unary or case["system"] == "gap", classes=["cli-inproc:" + case["system"], "cli-inproc:pos" if case["pos"] else "cli-inproc:words"])
+    if ctx.shard == 0:
+        # more than a thousand sentences in one file: one output line per tree, in order
+        big = []
+        for i in range(1005):
+            toks = [{"w": "w%d" % i, "p": "NN", "n": 1, "e": "HD", "lem": "--", "m": "--"}, {"w": "x", "p": "VB", "n": 2, "e": "--", "lem": "--", "m": "--"}]
+            big.append({"sid": i + 1, "root": {"l": "VROOT", "e": "--", "lem": "--", "m": "--", "c": [{"l": "S", "e": "--", "lem": "--", "m": "--", "c": toks}]}})
+        try:
+            ctx.run_case(body, {"system": "inorder", "trees": big, "pos": False, "topnode": False, "inproc": True})
+        except Violation as vio:
+            ctx.record(vio)
     ctx.hyp(cli_case().map(lambda c: dict(c, inproc=True)), body, max_examples=80 if quick else 800, shrink=False,
             smaller=lambda c: [dict(c, trees=c["trees"][:i] + c["trees"][i + 1:]) for i in range(len(c["trees"])) if len(c["trees"]) > 1])
 
